@@ -10,12 +10,17 @@ __CPROVER_requires(context->tempData != NULL && (g_pol_evals == 0 || (((Verifica
 __CPROVER_ensures(g_pol_evals == __CPROVER_old(g_pol_evals) + 1 && __CPROVER_return_value == g_last_pol_res)
 __CPROVER_ensures(policyResult->finalResult.resultCode == g_last_pol_code && policyResult->resultCode == g_last_pol_code)
 __CPROVER_ensures(g_last_pol_code == KSI_VER_RES_OK || g_last_pol_code == KSI_VER_RES_NA || g_last_pol_code == KSI_VER_RES_FAIL)
+/* rules may leave scratch objects in tempData */
+__CPROVER_ensures((((VerificationTempData *)context->tempData)->calendarChain == NULL || ((VerificationTempData *)context->tempData)->calendarChain == g_tmp_cal_p) &&
+		(((VerificationTempData *)context->tempData)->publicationsFile == NULL || ((VerificationTempData *)context->tempData)->publicationsFile == g_tmp_pub_p) &&
+		(((VerificationTempData *)context->tempData)->aggregationOutputHash == NULL || ((VerificationTempData *)context->tempData)->aggregationOutputHash == g_tmp_hash_p))
 __CPROVER_assigns(policyResult->finalResult.resultCode, policyResult->finalResult.errorCode, policyResult->resultCode, g_pol_evals, g_last_pol_res, g_last_pol_code,
 		((VerificationTempData *)context->tempData)->calendarChain, ((VerificationTempData *)context->tempData)->publicationsFile, ((VerificationTempData *)context->tempData)->aggregationOutputHash);
 
 static int PolicyVerificationResult_addLatestPolicyResult(KSI_PolicyVerificationResult *result)
 __CPROVER_requires(result != NULL)
 __CPROVER_ensures(IMPLIES(__CPROVER_return_value != KSI_OK, g_fb_env_failed))
+__CPROVER_ensures(IMPLIES(__CPROVER_return_value == KSI_OK && g_fb_env_failed, __CPROVER_old(g_fb_env_failed)))
 __CPROVER_assigns(g_fb_env_failed);
 
 int KSI_SignatureVerifier_verify(const KSI_Policy *policy, KSI_VerificationContext *context, KSI_PolicyVerificationResult **result)
@@ -29,7 +34,9 @@ __CPROVER_ensures(IMPLIES(__CPROVER_return_value == KSI_OK, g_pol_evals >= 1 && 
 __CPROVER_ensures(IMPLIES(__CPROVER_return_value == KSI_OK && g_last_pol_code != KSI_VER_RES_OK, g_pol_evals <= C05_NPOL && g_pols[g_pol_evals - 1].fallbackPolicy == NULL))
 /* an internal error of a policy is returned as an error without a verdict */
 __CPROVER_ensures(IMPLIES(g_pol_evals >= 1 && g_last_pol_res != KSI_OK, __CPROVER_return_value == g_last_pol_res && *result == __CPROVER_old(*result)))
-__CPROVER_ensures(IMPLIES(__CPROVER_return_value != KSI_OK, *result == __CPROVER_old(*result) && (g_fb_env_failed || (g_pol_evals >= 1 && g_last_pol_res != KSI_OK))))
+__CPROVER_ensures(IMPLIES(__CPROVER_return_value != KSI_OK, *result == __CPROVER_old(*result)))
+/* once the first policy ran nothing but a policy's internal error (or result bookkeeping) can make the call fail */
+__CPROVER_ensures(IMPLIES(__CPROVER_return_value != KSI_OK && g_pol_evals >= 1 && !g_fb_env_failed, g_last_pol_res != KSI_OK))
 /* the context never keeps verification scratch data */
 __CPROVER_ensures(context->tempData == NULL)
 __CPROVER_assigns(*result, context->tempData, context->ctx->lastFailedSignature, g_pol_evals, g_last_pol_res, g_last_pol_code, g_fb_env_failed, g_tmp_frees);
